@@ -610,7 +610,10 @@ def marshalInitial (fb : Builder) (idx : Int) (planned : Bool) (frames : List (N
         match (match sorted with
                | [] => some []
                | f :: _ => reassemble f.1 sorted []) with
-        | none => .err "reassemble"
+        | none =>
+          -- not one contiguous range (a retransmission of non-adjacent datagrams): the tree decides
+          -- whether that is an error or the frames go out as they are (generated fact)
+          if Uquic.Gen.Frames.marshalReassembleFatal then .err "reassemble" else .ok (orig, idx + 1)
         | some cryptoData =>
           let baseOffset := fs.foldl (fun m f => if f.1 < m then f.1 else m) 18446744073709551615
           let baseOffset := if baseOffset = 18446744073709551615 then 0 else baseOffset
